@@ -50,9 +50,9 @@ def load(path):
     try:
         return "accepted", cutplace.Cid(path)
     except m["errors"].InterfaceError as error:
-        return "refused: %s" % error, None
+        return "refused: %s" % str(error).replace(os.path.basename(path), "<cid>"), None  # the message without the name of the file
     except Exception as error:
-        return "raised-%s: %s" % (type(error).__name__, error), None
+        return "raised-%s: %s" % (type(error).__name__, str(error).replace(os.path.basename(path), "<cid>")), None
 
 
 def judge_cid(case, part):
@@ -79,16 +79,16 @@ def judge_cid(case, part):
         part.outcome("cid:" + ("loaded" if not isinstance(value, str) else value.split(":")[0]))
         if value != reference:
             kind = "definition-differs" if not isinstance(value, str) and not isinstance(reference, str) else "load-outcome-differs"
-            part.fail("cid-storage|csv-vs-%s|%s" % (key, kind), case, str(reference)[:600], str(value)[:600])
+            part.fail("cid-storage%s|csv-vs-%s|%s" % (":" + case["what"] if case.get("what") else "", key, kind), case, str(reference)[:600], str(value)[:600])
 
 
-def cid_rows_for(fields, data_format, sheet):
-    config = {"preset": data_format, "header": 0, "fields": fields, "checks": []}
+def cid_rows_for(fields, data_format, sheet, header=0):
+    config = {"preset": data_format, "header": header, "fields": fields, "checks": []}
     decls = readermachine.decls_for(config)
     extra = [("Sheet", str(sheet))] if data_format in ("ods", "excel") and sheet != 1 else []
     extra.append(("Encoding", "utf-8"))  # delimited data are stored as a UTF-8 file that the reader opens itself
     checks = [["uniq", "IsUnique", fields[0]]]
-    return harness.cid_rows(data_format, decls, checks, 0, extra=extra), decls
+    return harness.cid_rows(data_format, decls, checks, header, extra=extra), decls
 
 
 def run_rows(cid, source):
@@ -117,9 +117,10 @@ def judge_table(case, part):
     if case.get("has_rejects"):
         part.nontrivial += 1
     results = {}
+    header = case.get("header", 0)
     for data_format in FORMATS:
-        rows, decls = cid_rows_for(fields, data_format, sheet)
-        config = {"preset": data_format, "header": 0, "fields": fields, "sheet": sheet if data_format != "delimited" else 1,
+        rows, decls = cid_rows_for(fields, data_format, sheet, header)
+        config = {"preset": data_format, "header": header, "fields": fields, "sheet": sheet if data_format != "delimited" else 1,
                   "odf": {"span_range": [1, 6], "span_nested": bool(sheet % 2), "col_runs": True, "paragraphs": True, "annotations": case.get("number", 0) % 3 == 0}}  # ODS data: part of every longer cell inside inline elements, runs of equal cells stored once, one paragraph per line of a cell
         for storage in STORAGES:
             outcome, cid = load(store_rows(rows, storage, "tcid"))
@@ -152,6 +153,20 @@ def judge_table(case, part):
 def judge(case, part):
     if case["kind"] == "cid":
         judge_cid(case, part)
+        if case.get("blank_variant", True):
+            # the same CID with a blank in front of every check description, check rule and example: whatever that means for the definition, it means the same in every storage format
+            changed = []
+            for row in case["rows"]:
+                row = list(row)
+                marker = row[0].strip().upper() if row else ""
+                if marker == "C" and len(row) > 1:
+                    row[1] = " " + row[1]
+                    if len(row) > 3 and row[3]:
+                        row[3] = " " + row[3]
+                elif marker == "F" and len(row) > 2 and row[2]:
+                    row[2] = " " + row[2]
+                changed.append(row)
+            judge_cid({"kind": "cid", "rows": changed, "what": "blank-in-front"}, part)
     else:
         judge_table(case, part)
 
@@ -231,6 +246,12 @@ def run(ctx):
     for index, fields in enumerate(FIELD_SETS):
         for number, (table, has_rejects) in enumerate(tables_for(fields, 40 if quick else 120)):
             cases.append({"kind": "table", "fields": fields, "table": table, "sheet": 1 + (index + number) % 2, "has_rejects": bool(has_rejects), "number": number, "what": has_rejects if isinstance(has_rejects, str) else ""})
+            table_count += 1
+    # tables behind one or two header rows whose cells hold line breaks and quotes: a header row is one row in every storage format
+    for index, fields in enumerate(FIELD_SETS[:6]):
+        for header, head in ((1, [["customer\nid"] + ["h"] * (len(fields) - 1)]), (2, [["title"] + [""] * (len(fields) - 1), ["a \"quoted\"\nname"] + ["second\n\nline"] * (len(fields) - 1)])):
+            table, has_rejects = tables_for(fields, 2)[1]
+            cases.append({"kind": "table", "fields": fields, "table": head + table, "sheet": 1, "has_rejects": True, "number": 1, "what": "", "header": header})
             table_count += 1
     ctx.pmap(MOD, "work", engine.chunks(cases, 8), label="C17")
     ctx.bound = {"CIDs": len(cases) - table_count, "tables": table_count, "combinations per table": "3 data formats x 3 CID storages = 9", "sheets": "data on sheet 1 or 2 with the matching Sheet property"}
